@@ -98,10 +98,10 @@ CLAIMED = {
  "C08": dict(
    text="Coq theorems C08_atomic (after EVERY prefix of the operation sequence - create temp, appends, truncations, rename - every file being rewritten holds its old or its complete new content), "
         "C08_only_rename_touches_originals, C08_final (completion: new content everywhere, no temp file), C08_trim (any number of trailing newlines -> exactly one, all sizes), C08_trim_empty, C08_trim_never_panics, "
-        "C08_trim_ops, C08_trim_small_refuted (the pre-fix trimmer panics on `halt\\n`: defect D8, fixed), C08_trim_fix_conservative. Correspondence: every original file read back at every database request of an "
+        "C08_trim_ops, C08_trim_small_refuted (the pre-fix trimmer panics on `halt\\n`: defect D8, fixed), C08_trim_fix_conservative. C08_updater_atomic / C08_updater_final / C08_updater_ownership: the same statements for the operation sequence the updater model itself performs (wevs_of instruments update_loop; closed_of = written), in update and format mode, with per-file record ownership. Correspondence: every original file read back at every database request of an "
         "uninterrupted update; a driver panic injected at every request k; tiny/empty files and up to 20 trailing blank lines; per-file bytes vs model; no *.temp; the real binary `--override` with SIGKILL delivered at every engine request k (old or complete new content per file afterwards); the CLI copy also through --format in C05.",
    ref="4/C08", technique="Coq proof (invariant over operation prefixes) + fault enumeration at every request",
-   note="Trusted: Coq kernel; POSIX rename atomicity; partial: durability/fsync ordering, non-POSIX file systems, concurrent writers; the syscall-level comparison (strace) is not built, the op model is tied through file contents at every interruption point."),
+   note="Trusted: Coq kernel; POSIX rename atomicity; partial: durability/fsync ordering, non-POSIX file systems, concurrent writers; the syscall-level comparison (strace) is not built, the op model is tied to the updater model by theorem (UpdateFs.v) and to the code through file contents at every interruption point; a file included twice is outside the premise NoDup (the second rewrite wins)."),
  "C13": dict(
    text="Coq theorems C13_off_identity, C13_sql (for every well-formed template incl. nested defaults and the five escapes the model of subst 0.3.7 + substitution.rs expands as documented, failing on an undefined variable), "
         "C13_lookup_order, C13_locals_shadow_environment, C13_value_verbatim, C13_cmd_identity, C13_trailing_dollar_refuted (known finding D9). Correspondence: generated templates and malformed texts, variables local/environment/both, "
